@@ -241,8 +241,10 @@ class Inliner:
         rets = []
         for p in paths(self.repo, fn, bind):
             if p.status == 'return' and p.retval is not None:
-                sub = Inliner(self.repo, dict(self.types, **{bind['self']: fn.cls})
-                              if fn.cls is not None else self.types, d - 1, self.only, self.skip)
+                types = dict(self.types)
+                if fn.cls is not None and bind['self'] not in types:
+                    types[bind['self']] = fn.cls
+                sub = Inliner(self.repo, types, d - 1, self.only, self.skip)
                 v = sub.expand(p.retval, d - 1)
                 if v not in rets:
                     rets.append(v)
